@@ -22,7 +22,7 @@ ASSUMPTIONS = ['reference definitions in pbt/props/c12.py (math.fsum mean, popul
                'channel-form agreement are exact']
 BUDGET = {
     'quick': dict(examples=1600, time_s=240),
-    'thorough': dict(examples=60000, time_s=1500),
+    'thorough': dict(examples=60000, time_s=1500, fuzz=dict(workers=8, runs=6000, max_s=300)),
 }
 
 STATS = ['mean', 'gmean', 'median', 'mode', 'std', 'cv', 'gstd', 'gcv', 'iqr', 'rcv']
